@@ -334,9 +334,24 @@ class Gen:
         src = self.rand_scalar()
         return Cast(self.expr(src, d - 1), ty)
 
+    def effect_block(self, e):
+        """`{ counter += 1; e }` for some mutable integer variable (a non-idempotent effect that must happen
+        exactly once wherever the block is used as an operand), or e itself if there is none"""
+        muts = [v for v in self.vars_of(lambda t, m: m and isinstance(t, TInt)) if v[0] not in self.no_assign]
+        if not muts:
+            return e
+        n, t, _ = self.pick(muts)
+        return Block([Assign(n, t, [], Lit(t, 1), "+")], e)
+
     def e_cmp(self, ty, d):
         t = self.rand_int_type()
-        return Bin(self.pick(list(CMP)), self.expr(t, d - 1), self.expr(t, d - 1))
+        l, r = self.expr(t, d - 1), self.expr(t, d - 1)
+        if self.chance(0.2):
+            if self.chance(0.5):
+                l = self.effect_block(l)
+            else:
+                r = self.effect_block(r)
+        return Bin(self.pick(list(CMP)), l, r)
 
     def e_eq(self, ty, d):
         t = self.rand_type(1) if self.chance(0.3) else self.rand_scalar()
